@@ -344,7 +344,7 @@ var hmModel = (&porcupine.NondeterministicModel{
 			if !sawOK() || !out.ok || out.v != in.v {
 				return nil
 			}
-			return []interface{}{kvState{true, in.v}}
+			return []interface{}{kvState{present: true, v: in.v}}
 		case "del":
 			if !sawOK() || out.ok {
 				return nil
@@ -368,7 +368,7 @@ var hmModel = (&porcupine.NondeterministicModel{
 			if !out.ok || out.v != in.v {
 				return nil
 			}
-			return []interface{}{kvState{true, in.v}}
+			return []interface{}{kvState{present: true, v: in.v}}
 		case "clear":
 			return []interface{}{kvState{}}
 		}
@@ -378,13 +378,21 @@ var hmModel = (&porcupine.NondeterministicModel{
 
 func genHashmapCase(rng *simrt.Rng) *CompCase {
 	cc := &CompCase{Kind: "hashmap"}
-	cc.Parallelism = []int{1, 2, 4, 8, 16}[rng.Intn(5)]
+	cc.Parallelism = []int{1, 2, 3, 4, 5, 6, 7, 8, 12, 16}[rng.Intn(10)]
 	if rng.Intn(3) == 0 {
 		cc.HashMode = 1
 	}
 	cc.Size = []int{0, 0, 1, 200, 700}[rng.Intn(5)]
 	mode := rng.Intn(6)
+	if rng.Intn(12) == 0 {
+		mode = 6
+	}
 	switch mode {
+	case 6:
+		// 256 -> 512 buckets: the parallel copy splits the source table into min(4, parallelism)
+		// chunks, which does not divide 256 when the parallelism is 3
+		cc.Prefill = 952 + rng.Intn(12)
+		cc.Parallelism = []int{3, 3, 5, 6, 7, 4, 12}[rng.Intn(7)]
 	case 0:
 		cc.Prefill = rng.Intn(8)
 	case 1:
@@ -404,7 +412,7 @@ func genHashmapCase(rng *simrt.Rng) *CompCase {
 		cc.Stable = rng.Intn(4)
 		cc.PreDelete = cc.Prefill - cc.Stable - (1 + rng.Intn(8))
 	}
-	if mode < 4 {
+	if mode < 4 || mode == 6 {
 		cc.Stable = cc.Prefill / 2
 	}
 	if cc.Size >= 200 && mode >= 1 {
